@@ -163,6 +163,39 @@ pub fn c09(tier: &str, seed: u64) {
       });
     }
   }
+  // 2c. EXACTLY threshold-many shares (and threshold + 1) of which one has another number of
+  //     y-coordinates (none / one too many), in every position: the count gate and the length gate
+  //     must agree about which shares count
+  for t in 1..=4u32 {
+    for extra in 0..2usize {
+      for pos in 0..(t as usize + extra) {
+        for kind in 0..2 {
+          let (m, e) = (g.blob(4), g.blob(1));
+          let mut bs: Vec<Vec<u8>> = (0..t as usize + extra).map(|_| make_client(&m, &e, t, None, None).msg.share.to_bytes()).collect();
+          let b = &mut bs[pos];
+          let s_len = u32::from_le_bytes(b[4..8].try_into().unwrap()) as usize;
+          let tail = b.split_off(8 + s_len);
+          if kind == 0 {
+            b.truncate(8 + 24);
+            b[4..8].copy_from_slice(&24u32.to_le_bytes());
+          } else {
+            let y = b[32..56].to_vec();
+            b.extend(y);
+            b[4..8].copy_from_slice(&((s_len + 24) as u32).to_le_bytes());
+          }
+          b.extend(tail);
+          let parsed: Option<Vec<sta_rs::Share>> = bs.iter().map(|b| sta_rs::Share::from_bytes(b)).collect();
+          if let Some(p) = parsed {
+            let hs = hexlist(&bs);
+            no_panic("sta_rs::share_recover", &[("shares", hs), ("what", format!("threshold {} with {} shares, share {} has {}", t, t as usize + extra, pos, if kind == 0 { "no y-coordinate" } else { "one y-coordinate too many" }))], move || {
+              let _ = sta_rs::share_recover(&p);
+            });
+            stat("oracle.recover.one_stray_length_at_the_count_boundary");
+          }
+        }
+      }
+    }
+  }
   no_panic("sta_rs::share_recover", &[("shares", "(empty)".into())], || {
     let _ = sta_rs::share_recover(&[]);
   });
